@@ -468,6 +468,21 @@ class Body:
         if "c" in op:
             if "fn" in op:
                 return ("fnptr", op["fn"])
+            if op.get("promoted") and "v" not in op:
+                # a promoted constant (`&CONST`, `&[..]`): expose the named constants it is built from
+                m = re.search(r"promoted\[(\d+)\]", op.get("s") or "")
+                refs = (self.raw.get("promoted") or [])
+                if m and int(m.group(1)) < len(refs):
+                    kids = []
+                    for r in refs[int(m.group(1))]:
+                        if r.startswith("fn:"):
+                            kids.append(("fnptr", r[3:]))
+                        elif r.startswith("lit:"):
+                            kids.append(("const", int(r[4:]), None, None))
+                        else:
+                            kids.append(("const", None, r, None))
+                    if kids:
+                        return ("agg", "promoted", None, tuple(kids), ())
             return ("const", op.get("v", op.get("s")), op.get("cdef"), op.get("ty"))
         pl = op.get("cp") or op.get("mv")
         if pl is None:
